@@ -23,16 +23,21 @@ THREAD_ROUNDS = dict(quick=48, thorough=2000)
 ANCHORS = ['numdifftools.finite_difference:LogRule.rule',
            'numdifftools.step_generators:MinStepGenerator.step_generator_function',
            'numdifftools.core:Derivative.set_richardson_rule', 'numdifftools.core:Derivative._get_steps',
-           'numdifftools.core:Derivative._set_derivative']
+           'numdifftools.core:Derivative._set_derivative',
+           'numdifftools.finite_difference:JacobianDifferenceFunctions.increments',
+           'numdifftools.finite_difference:JacobianDifferenceFunctions._central',
+           'numdifftools.finite_difference:JacobianDifferenceFunctions._forward',
+           'numdifftools.finite_difference:HessianDifferenceFunctions._central_even',
+           'numdifftools.finite_difference:HessdiagDifferenceFunctions._central_even']
 MIN_COUNTERS = dict(quick={'history_calls_compared': 1500, 'histories': 300, 'warm_cache_calls': 250,
                            'cold_cache_calls': 100, 'shared_generator_calls': 100, 'mutate_restore_ops': 100,
                            'threaded_calls_compared': 1200, 'thread_rounds': 40,
                            'distinct_interleavings': 30, 'fresh_interpreter_references': 150},
                     thorough={'history_calls_compared': 80000, 'thread_rounds': 1500})
-RULE = ('per shard a pool of 12 configurations (function, method, n, order, step options; configurations 2k and 2k+1 share '
-        'their step options so one generator instance can serve both) x 2 points, each reference computed in its own fresh '
+RULE = ('per shard a pool of 12 Derivative configurations (function, method, n, order, step options; configurations 2k and 2k+1 share '
+        'their step options so one generator instance can serve both) plus 6 Gradient / Jacobian / Hessdiag / Hessian configurations (dimension 2-3), x 2 points, each reference computed in its own fresh '
         'interpreter; histories of <= 12 operations from {construct, call, set n/order/method and restore (with a call in '
-        'between), share a step generator, clear FD_RULES, pre-populate FD_RULES via other configurations, reuse at the '
+        'between), share a step generator, clear FD_RULES, pre-populate FD_RULES via other configurations, an object whose function raises after k evaluations, reuse at the '
         'other point}; threaded rounds: up to 16 threads with disjoint objects, forced switches (switchinterval 1e-6 and '
         'sleep(0) injected with p=0.3 at every line of the four anchored state-touching functions). distinct non-trivial = '
         'histories (hashed op sequence) containing >= 1 warm-cache call and >= 1 reused object whose reference differs from '
@@ -51,6 +56,17 @@ FUN_SRC = {
     'expm1sq': 'np.expm1(x) * np.expm1(x)',
 }
 FUNS = {k: eval('lambda x: ' + v, {'np': np}) for k, v in FUN_SRC.items()}
+MFUN_SRC = {   # scalar functions of a vector (Gradient, Hessdiag, Hessian) and vector functions (Jacobian)
+    'rosen': '(1.0 - x[0]) ** 2 + 3.0 * (x[1] - x[0] * x[0]) ** 2 + 0.5 * x[-1] * x[0]',
+    'expsin': 'np.exp(0.5 * x[0]) * np.sin(x[1]) + x[-1] * x[-1]',
+    'vec3': 'np.array([x[0] * x[1], np.sin(x[0]) + x[-1] * x[-1], np.exp(0.3 * x[1])])',
+    'vec2': 'np.array([x[0] - x[1] * x[-1], np.cos(x[0] * x[1])])',
+}
+MFUNS = {k: eval('lambda x: ' + v, {'np': np}) for k, v in MFUN_SRC.items()}
+MULTI = [('Gradient', ['rosen', 'expsin']), ('Jacobian', ['vec3', 'vec2']), ('Hessdiag', ['rosen', 'expsin']),
+         ('Hessian', ['rosen', 'expsin']), ('Jacobian', ['vec3', 'vec2']), ('Gradient', ['rosen', 'expsin'])]
+HESSIAN_METHODS = ['central', 'central2', 'forward', 'backward', 'complex', 'multicomplex']
+NPOOL = 18
 REAL_METHODS = ['central', 'forward', 'backward']
 ALL_METHODS = ['central', 'forward', 'backward', 'complex', 'multicomplex']
 
@@ -89,6 +105,16 @@ def make_pool(rng):
                                  restore=[str(v) for v in rng.permutation(which)]))
             cfg['alts'] = alts
             pool.append(cfg)
+    # six configurations of the multivariate classes (they share module-level helpers and the rule cache with Derivative)
+    for cls, funs in MULTI:
+        dim = int(rng.integers(2, 4))
+        u = rng.random()
+        step = dict(kind='default') if u < 0.5 else dict(kind='scalar', value=float(10.0 ** rng.uniform(-4, -1.5))) if u < 0.75 \
+            else dict(kind=str(rng.choice(['min', 'max'])), opts=_step_opts(rng))
+        method = str(rng.choice(HESSIAN_METHODS if cls == 'Hessian' else ALL_METHODS))
+        pts = [[float(v) for v in np.round(rng.uniform(-1.5, 1.5, size=dim), 3)] for _ in range(2)]
+        pool.append(dict(cls=cls, fun=str(rng.choice(funs)), method=method, n=None, order=int(rng.choice([2, 4])),
+                         step=step, points=pts, alts=[]))
     return pool
 
 
@@ -114,10 +140,17 @@ def build_step(nd, step):
     return cls(**step['opts'])
 
 
-def build(nd, cfg, step_obj='build'):
+def build(nd, cfg, step_obj='build', wrap=None):
     st = build_step(nd, cfg['step']) if isinstance(step_obj, str) else step_obj
-    return nd.Derivative(FUNS[cfg['fun']], step=st, method=cfg['method'], n=cfg['n'], order=cfg['order'],
-                         full_output=True)
+    cls = cfg.get('cls', 'Derivative')
+    if cls == 'Derivative':
+        fun = FUNS[cfg['fun']] if wrap is None else wrap(FUNS[cfg['fun']])
+        return nd.Derivative(fun, step=st, method=cfg['method'], n=cfg['n'], order=cfg['order'], full_output=True)
+    fun = MFUNS[cfg['fun']] if wrap is None else wrap(MFUNS[cfg['fun']])
+    kw = dict(step=st, method=cfg['method'], full_output=True)
+    if cls != 'Hessian':
+        kw['order'] = cfg['order']
+    return getattr(nd, cls)(fun, **kw)
 
 
 def encode(val, info):
@@ -219,7 +252,7 @@ def cases(rng, tier, shard, nshards):
         ops = []
         for _ in range(int(rng.integers(4, 13))):
             u = rng.random()
-            i_cfg = int(rng.integers(0, 12))
+            i_cfg = int(rng.integers(0, NPOOL))
             if u < 0.15:
                 ops.append(['construct', i_cfg])
             elif u < 0.55:
@@ -231,11 +264,15 @@ def cases(rng, tier, shard, nshards):
             elif u < 0.85:
                 ops.append(['clear_cache'])
             elif u < 0.88:
-                ops.append(['prepopulate', [int(v) for v in rng.integers(0, 12, size=3)]])
+                ops.append(['prepopulate', [int(v) for v in rng.integers(0, NPOOL, size=3)]])
             elif u < 0.96:
                 ops.append(['prepopulate_all_parities'])
-            else:
+            elif u < 0.98:
                 ops.append(['reuse_other_point', i_cfg])
+            else:
+                ops.append(['raise_midway', i_cfg, int(rng.integers(1, 12))])
+            if u >= 0.55 and u < 0.67 and i_cfg >= 12:
+                ops[-1] = ['raise_midway', i_cfg, int(rng.integers(1, 12))]    # (the setters are exercised on Derivative only)
         yield dict(kind='history', ops=ops)
     rounds = THREAD_ROUNDS[tier] // nshards
     for r in range(rounds):
@@ -352,6 +389,24 @@ def run_case(case, ctx):
                     if not _compare(ctx, 'shared_step_generator', q, k, got, extra=dict(ops=case['ops'])):
                         return
                     last_point[q], last_result[q] = k, got
+            elif name == 'raise_midway':
+                # another object of the same configuration whose function fails after a few evaluations: whatever the
+                # aborted call left behind (module-level work arrays, caches, generator state) must not reach later calls
+                i, after = op[1], op[2]
+                left = [after]
+
+                def failing(fn, left=left):
+                    def g(x):
+                        left[0] -= 1
+                        if left[0] < 0:
+                            raise RuntimeError('user function failed')
+                        return fn(x)
+                    return g
+                ctx.count('raise_midway_ops')
+                try:
+                    call(build(nd, pool[i], wrap=failing), pool[i]['points'][0])
+                except Exception:
+                    pass
             elif name == 'clear_cache':
                 fdm.FD_RULES.clear()
                 ctx.count('cache_clears')
@@ -388,7 +443,7 @@ def run_case(case, ctx):
     rng = np.random.default_rng(case['seed'])
     plans = []
     for t in range(nthreads):
-        plans.append([(int(rng.integers(0, 12)), int(rng.integers(0, 2))) for _ in range(case['calls_per_thread'])])
+        plans.append([(int(rng.integers(0, NPOOL)), int(rng.integers(0, 2))) for _ in range(case['calls_per_thread'])])
     # references first (outside the threaded region)
     for plan in plans:
         for (i, k) in plan:
